@@ -5,7 +5,7 @@ package hw
 //
 //go:noinline
 func F0(a int) int {
-	if a > 1<<40 {
+	if a > 1<<41 {
 		return a*3 - 1
 	}
 	return a + 100
@@ -13,7 +13,7 @@ func F0(a int) int {
 
 //go:noinline
 func F1(a int) int {
-	if a > 1<<40 {
+	if a > 1<<42 {
 		return a*5 - 1
 	}
 	return a + 200
@@ -26,7 +26,7 @@ type S struct{ K int }
 //
 //go:noinline
 func (s *S) M(a int) int {
-	if a > 1<<40 {
+	if a > 1<<43 {
 		return a*7 - s.K
 	}
 	return a + 300
@@ -34,7 +34,7 @@ func (s *S) M(a int) int {
 
 //go:noinline
 func (s *S) m(a int) int {
-	if a > 1<<40 {
+	if a > 1<<44 {
 		return a*11 - s.K
 	}
 	return a + 400
@@ -49,7 +49,7 @@ func CallLowerM(s *S, a int) int { return s.m(a) }
 //
 //go:noinline
 func G(a int) int {
-	if a > 1<<40 {
+	if a > 1<<45 {
 		return a*13 - 1
 	}
 	return a + 500
@@ -97,7 +97,7 @@ func OG(a int) int {
 
 //go:noinline
 func g2(a int) int {
-	if a > 1<<40 {
+	if a > 1<<46 {
 		return a*17 - 1
 	}
 	return a + 600
@@ -137,7 +137,7 @@ const Pkg = "verifh/targets/hw"
 //
 //go:noinline
 func F2p(a, b int) int {
-	if a > 1<<40 {
+	if a > 1<<47 {
 		return a*23 - b
 	}
 	return a + b + 900
@@ -147,7 +147,7 @@ func F2p(a, b int) int {
 //
 //go:noinline
 func R2(a int) (int, int) {
-	if a > 1<<40 {
+	if a > 1<<48 {
 		return a * 29, a - 1
 	}
 	return a + 1000, a + 1001
@@ -163,7 +163,7 @@ var PlainVar int = 6
 //
 //go:noinline
 func (s *S) Q(a int) int {
-	if a > 1<<40 {
+	if a > 1<<49 {
 		return a*31 - s.K
 	}
 	return a + 1100
@@ -177,4 +177,44 @@ func F3p(a int32, b int64, c int8) int {
 		return int(a) - int(c)
 	}
 	return int(a) + int(b) + int(c) + 1200
+}
+
+// OF1 is F1's origin placeholder (its body is overwritten by goom).
+//
+//go:noinline
+func OF1(a int) int {
+	x := a
+	x = x*13 + 17
+	if x == 2000 {
+		x++
+	}
+	x = x*14 + 18
+	if x == 2001 {
+		x++
+	}
+	x = x*15 + 19
+	if x == 2002 {
+		x++
+	}
+	x = x*16 + 20
+	if x == 2003 {
+		x++
+	}
+	x = x*17 + 21
+	if x == 2004 {
+		x++
+	}
+	x = x*18 + 22
+	if x == 2005 {
+		x++
+	}
+	x = x*19 + 23
+	if x == 2006 {
+		x++
+	}
+	x = x*20 + 24
+	if x == 2007 {
+		x++
+	}
+	return x
 }
